@@ -10,7 +10,9 @@
    (it would need a JSON number printing/parsing model). *)
 From Coq Require Import Sorting.Permutation.
 From Errdef Require Import Base.Str Base.Outcome Model.Core Model.Convert Model.Unmarshal Check.UM Check.C12
-  Proofs.C10Proofs Proofs.SortFields Proofs.C13Proofs Proofs.C12Proofs.
+  Proofs.C10Proofs Proofs.SortFields Proofs.C13Proofs Proofs.C12Proofs Model.JsonVal Proofs.ValueRoundtrip.
+From Coq Require Import ZArith Reals.
+From Flocq Require Import Core IEEE754.BinarySingleNaN.
 
 (* for every configuration and every two decoded trees that differ only in the order in which
    the fields of a node are met (Go's map iteration order; names distinct, as in a map), at
@@ -46,6 +48,42 @@ Theorem C12_fields_independent : forall rs,
   proj_fails (collect_fields rs) = flat_map fails_of rs.
 Proof. exact collect_as_flat_map. Qed.
 Print Assumptions C12_fields_independent.
+
+(* FIXPOINT, per field: whatever a JSON scalar (number, string, bool) was bound to under a typed
+   key of a scalar Go type t, the JSON scalar that value marshals to (redecode: encoding/json writes
+   it, jsonToDecodedData decodes it) binds to t again with the very same value - for EVERY number,
+   including integers above 2^53 and the two boundary values of K6 (2^63 -> MinInt64, 2^64 -> 2^63,
+   which re-marshal to numbers that bind to themselves).  This is the step that makes
+   n = Marshal(Unmarshal(x)) a fixpoint on typed scalar fields; unknown fields are re-emitted
+   verbatim, and the tree structure is C09_roundtrip_structure's.  The premise on [reparse32] is
+   the strconv contract on float32 (validated by the harness); the guard not_max32 excludes
+   exactly a float32 of magnitude MaxFloat32 (finding K9, see C12_max_float32_refuted). *)
+Theorem C12_binding_fixpoint : forall reparse32 : Z -> Z,
+  (forall b, is_finite (f32_of_bits b) = true ->
+     is_finite (f64_of_bits (reparse32 b)) = true /\ f64_to_f32 (f64_of_bits (reparse32 b)) = f32_of_bits b) ->
+  forall t d b v,
+  sty_wf t = true -> json_native_scalar d = true ->
+  try_convert (FScalar t) d = Ok (Some b) -> bval_scalar b = Some v -> not_max32 v ->
+  forall d', redecode reparse32 v = Some d' ->
+  exists b', try_convert (FScalar t) d' = Ok (Some b') /\ bval_scalar b' = Some v.
+Proof. exact binding_fixpoint. Qed.
+Print Assumptions C12_binding_fixpoint.
+
+(* the integer step on its own, no float32 premise: a number bound to an integer kind re-marshals
+   to a number bound to the same integer *)
+Theorem C12_int_binding_idempotent : forall k bits z, Check.C11.is_int_kind k = true ->
+  conv_f64 k bits = Some (SInt z) -> conv_f64 k (bits_of_f64 (i64_to_f64 z)) = Some (SInt z).
+Proof. exact int_binding_idempotent. Qed.
+Print Assumptions C12_int_binding_idempotent.
+
+(* K9: x = {"f": 3.4028234663852886e38} (= MaxFloat32 exactly) binds to a float32 key; n carries
+   3.4028235e+38, whose float64 value is declined: Unmarshal(n) fails in strict mode *)
+Theorem C12_max_float32_refuted :
+  conv_f64 KFloat32 max_float32_bits64 = Some (SF32 max_float32_bits) /\
+  redecode (fun _ => reparsed_max32_bits64) (SF32 max_float32_bits) = Some (DS ty_float64 (SF64 reparsed_max32_bits64)) /\
+  try_convert (FScalar {| s_id := 12; s_kind := KFloat32 |}) (DS ty_float64 (SF64 reparsed_max32_bits64)) = Ok None.
+Proof. repeat split; vm_compute; reflexivity. Qed.
+Print Assumptions C12_max_float32_refuted.
 
 Example C12_example :
   let kn := {| uk_key := {| k_id := 1; k_name := "n"; k_ty := 2 |}; uk_ty := FScalar {| s_id := 2; s_kind := KInt |} |} in
